@@ -16,4 +16,4 @@ for gid, txt in _ids:
                'O3: the context switch itself, stack_valid, context_init and stacklimits are stubbed (recording stub)'],
         assumes=['x87 state, XMM/AVX registers, segment state, CET shadow stacks, signals during the switch are not modelled',
                  'O1: one page-aligned 256-byte word-addressed stack window; O2: stack sizes 95..256 bytes with start skew < 16'],
-        runner=external.make_runner('x86', gid, interp='python3')))
+        runner=external.make_runner('x86', gid, interp='python3'), replay=replays.demo_replay('c03_context_demo.c', 'c03_restart_demo.c')))
